@@ -35,6 +35,9 @@ From FB.Model Require Import Types Monad CreatedFiles SimpleOps Builder Persist 
 From FB.Spec Require Import Ref Oracle Faithful.
 From FB.Model Require Import Core CoreOracle CoreCache.
 From FB.Proofs Require Import ReplayLaws BuildFileLaws FrameLaws CleanLaws CoreLaws2 CoreLaws5 CoreLaws6 CoreLaws7 CoreNextDefs CoreNextThm.
+(* T1g: Model/BuildDirs.v and Model/CreatedFiles.v are equal to the translation of build_dirs.py / created_files.py
+   (Gen/BookGen.v, regenerated on every run); a change of those sources that the model does not follow breaks this import *)
+From FB.Proofs Require BookGenLaws.
 Import ListNotations.
 
 Theorem C01_build_transparent : forall (kp : kappa) (F : ftable) fs cf old vers clock nextid root,
